@@ -107,6 +107,27 @@ Proof.
          (VDict [(VStr klow, VInt 0); (VStr khigh, VInt 1)]). vm_compute. auto.
 Qed.
 
+(* subclass-typed argument : classes B = Base(a: int = 1) and K = a class taking only keyword arguments *)
+Definition p_base : str := [66]%N.
+Definition p_kw : str := [75]%N.
+Definition base_ty : cty := CSub [(p_base, CData [(ka, CInt, VInt 1)]); (p_kw, CData [])].
+Definition spec (cp : str) (rest : list (val * val)) : val := VDict ((VStr k_class_path, VStr cp) :: rest).
+
+(* skip_default, nulls kept: a spec over the declared default None makes the dump raise (leaf_rt = None) *)
+Lemma skip_default_none_default_witness :
+  fx_subclass_trim = false /\
+  rt some_text yaml_skipdef {| lf_key := kx; lf_ty := base_ty; lf_def := VNone |}
+     (spec p_base [(VStr k_init_args, VDict [(VStr ka, VInt 1)])]) = None.
+Proof. vm_compute. auto. Qed.
+
+(* skip_default: default spec {KW}, value {KW, dict_kwargs: {a: 1}}: the key is deleted, the re-parse has no dict_kwargs *)
+Lemma skip_default_dict_kwargs_witness :
+  fx_subclass_trim = false /\
+  exists w', rt some_text yaml_skipdef {| lf_key := kx; lf_ty := base_ty; lf_def := spec p_kw [] |}
+               (spec p_kw [(VStr k_dict_kwargs, VDict [(VStr ka, VInt 1)])]) = Some w' /\
+             veq w' (spec p_kw [(VStr k_dict_kwargs, VDict [(VStr ka, VInt 1)])]) = false.
+Proof. split; [reflexivity|]. eexists. split; vm_compute; reflexivity. Qed.
+
 (* JSON: float inf is written Infinity, which the loader's table takes for a str: the re-parse is rejected *)
 Lemma json_nonfinite_witness :
   matches json_float_out (inf_text (FInf false)) = true /\ resolve loader_table (inf_text (FInf false)) = TgStr /\
@@ -115,14 +136,17 @@ Proof. vm_compute. auto. Qed.
 
 (* the hypotheses of dump_parse_roundtrip hold for a non-trivial parser and configuration:
    s: str = "1e3" (default "a"), n: Optional[int] = 7 (default None), l: List[str] = ["null", "a: b"],
-   d: List[Limits] = [{low: None, high: 2}] (a dataclass-typed value with an explicit None over the field default 0) *)
+   d: List[Limits] = [{low: None, high: 2}] (a dataclass-typed value with an explicit None over the field default 0),
+   m: Base-typed subclass spec {class_path: B, init_args: {a: 7}} over the default spec {class_path: K} *)
 Definition ex_leaves : list (leaf * val) :=
   [({| lf_key := [115]%N; lf_ty := CStr; lf_def := VStr ka |}, VStr [49;101;51]%N);
    ({| lf_key := [110]%N; lf_ty := CUnion [CInt; CNone]; lf_def := VNone |}, VInt 7);
    ({| lf_key := [108]%N; lf_ty := CList CStr; lf_def := VList [] |},
     VList [VStr [110;117;108;108]%N; VStr [97;58;32;98]%N]);
    ({| lf_key := [100]%N; lf_ty := CList limits_ty; lf_def := VList [] |},
-    VList [VDict [(VStr klow, VNone); (VStr khigh, VInt 2)]])].
+    VList [VDict [(VStr klow, VNone); (VStr khigh, VInt 2)]]);
+   ({| lf_key := [109]%N; lf_ty := base_ty; lf_def := spec p_kw [] |},
+    spec p_base [(VStr k_init_args, VDict [(VStr ka, VInt 7)])])].
 
 Lemma roundtrip_hyps_example :
   case_class id_yl yaml_skipdef ex_leaves = 0%N /\
@@ -130,7 +154,7 @@ Lemma roundtrip_hyps_example :
   roundtrip id_yl no_plain some_text some_text dumper_table loader_table yaml_skipdef ex_leaves = Some (map snd ex_leaves).
 Proof.
   split; [vm_compute; reflexivity|]. split; [|vm_compute; reflexivity].
-  apply Forall_cons; [|apply Forall_cons; [|apply Forall_cons; [|apply Forall_cons; [|apply Forall_nil]]]];
+  apply Forall_cons; [|apply Forall_cons; [|apply Forall_cons; [|apply Forall_cons; [|apply Forall_cons; [|apply Forall_nil]]]]];
     (right; eexists; (split; [vm_compute; reflexivity|]); eexists; (split; [vm_compute; reflexivity|]);
      vm_compute; reflexivity).
 Qed.
